@@ -113,7 +113,7 @@ var specs = []spec{
 		StmtPoints: []string{"partDisk.Reader", "fileDisk.Finalize", "fileDisk.Reader", "fileDisk.NewPart", "fileRAM.Finalize", "fileRAM.Reader"},
 		Rule:        "all interleavings with at most b deviations (b=2 quick / 3 thorough for two readers, one more for one reader) of a writer (scripts: plain frames, part / segment rotation that finalises and removes disk files, window slide, parameter change, a three-times longer segment that raises the target duration, Close) with 1-2 readers each running a 2-request script over the whole URL alphabet (multivariant, media playlist plain / blocking / delta, init, segment, part, preload hint, expired, unknown, and follow-ups of a URI taken from the reader's own previous playlist), for Low-Latency / fMP4 / MPEG-TS with RAM and Directory storage; scheduling points: the library's synchronisation operations plus every statement of the storage functions that run outside the muxer mutex; distinct = distinct (scenario, statuses); the data-race clause is covered by a separate free-running -race pass over the same bodies (not exhaustive)",
 		Assumptions: schedAssumptions},
-	{ID: "C19", Pkg: ".", Level: "exploration", Procs: 2,
+	{ID: "C19", Pkg: ".", Level: "exploration", Procs: 1,
 		Rule:        "complete grid: constant sample duration in {90000/f ticks for 17 (all divisor and 7-/11-multiple) frame rates 1..120, 3003, 1501, 3754 at 90 kHz; 1024 samples at the 13 standard AAC rates; Opus 2.5-60 ms} x PartMinDuration 50..2000 ms step 50 (5) x SegmentMinDuration {1, 2 s} x key-frame spacing {every sample, 0.5 s, 1 s, 2.5 s, three irregular patterns incl. a short first segment}, and video-led with an audio track of each of 4 kinds starting {0, 0.5, 1.25 s} late or listed before the video track, each run long enough for three segments; every playlist of every stream served after a part is published is checked (the rendition playlists for the clauses relating a listed part to the PART-TARGET of its own playlist); distinct = distinct (grid point, observed part duration and PART-TARGET)",
 		Assumptions: e1Assumptions},
 	{ID: "C18", Pkg: ".", Level: "exploration", Procs: 2,
@@ -134,7 +134,7 @@ var specs = []spec{
 	{ID: "C04", Pkg: ".", Level: "exploration", Procs: 2,
 		Rule:        "words over a finite write alphabet (timing family: delta in {0, one frame, S-1 tick, S, 1.4 S} x {random access, not}; parameter family: {one frame, S} x {RA with / without inline parameter sets, non-RA, parameter switch on RA / on non-RA}; interleaving family: all tracks x 2 deltas x 2 kinds, 1- and 2-AU audio writes, 1- and 3-packet Opus writes whose packets last 20/10/40 ms; audio family; reorder family: H264 with picture-order-count reordering, {one frame, S} x {IDR, P, P written ahead of a B, that B} + IDR at S-1 tick + parameter switch, the written decode time being the one mediacommon's DTS extractor derives from the written PTS/POC sequence) enumerated exhaustively as depth-N trees (from the initial state, after a regular preamble that fills the window, from negative start times) and as all periodic words of period <= 2 (3) run for 12 (16) x SegmentCount writes, on a configuration grid (variant x track set incl. audio-before-video x codecs x RAM/disk x SegmentCount); after every write everything the muxer advertises is fetched through Handle, decoded with mediacommon and compared with a reference model of the written stream; distinct = distinct (configuration, final playlists, emitted-unit counts)",
 		Assumptions: e1Assumptions},
-	{ID: "C05", Pkg: ".", Level: "exploration", Procs: 2,
+	{ID: "C05", Pkg: ".", Level: "exploration", Procs: 1,
 		Rule:        "words over a finite write alphabet (timing family: delta in {0, one frame, S-1 tick, S, 1.4 S} x {random access, not}; parameter family: {one frame, S} x {RA with / without inline parameter sets, non-RA, parameter switch on RA / on non-RA}; interleaving family: all tracks x 2 deltas x 2 kinds, 1- and 2-AU audio writes, 1- and 3-packet Opus writes whose packets last 20/10/40 ms; audio family; reorder family: H264 with picture-order-count reordering, {one frame, S} x {IDR, P, P written ahead of a B, that B} + IDR at S-1 tick + parameter switch, the written decode time being the one mediacommon's DTS extractor derives from the written PTS/POC sequence) enumerated exhaustively as depth-N trees (from the initial state, after a regular preamble that fills the window, from negative start times) and as all periodic words of period <= 2 (3) run for 12 (16) x SegmentCount writes, on a configuration grid (variant x track set incl. audio-before-video x codecs x RAM/disk x SegmentCount); after every write everything the muxer advertises is fetched through Handle, decoded with mediacommon and compared with a reference model of the written stream; distinct = distinct (configuration, final playlists, emitted-unit counts)",
 		Assumptions: e1Assumptions},
 
